@@ -20,14 +20,14 @@ META = {
     "rule": "base files covering all 10 vocabulary tags + a registered custom tag; (perm) every legal order of the <=7 lines of each base file (offset parameter before the "
     "edge that uses it); (junk) every placement of 0, 1 and 2 lines from {blank, spaces only, #comment, free text, near-miss tags VERTEX_SE2X / EDGE_SE2_XYZ / VERTEX_SE3 / "
     "EDGE_SE3:QUATX, leading-space tag} at every position; (fmt) every numeric field of every line x 10 number formats float() accepts; (sep) separators x line endings x the "
-    "six loader entry points. Oracle: vf/ref/g2o.py parse of the same text; one object per vocabulary line in file order with exactly float(token), symmetric information, offsets "
+    "six loader entry points; (custom2) two registered custom edge types: every order of a 6-line file x both registration orders. Oracle: vf/ref/g2o.py parse of the same text; one object per vocabulary line in file order with exactly float(token), symmetric information, offsets "
     "through the parameter id; warnings of logger graphslam.graph counted. non-trivial = file differs from the canonical rendering of its base (order, junk, format or separators)",
     "assumptions": [
         "well-formed files: tag at column 0, blank-separated fields, integer ids; inf/nan excluded",
         "warnings: at least one per unsupported non-blank line and at most one more per blank line (the documentation is silent on blank lines)",
         "a custom edge type's own from_g2o is harness code; what is checked is its dispatch (one object per line, in order, unaffected by other lines)",
     ],
-    "required_classes": ["perm", "junk1", "junk2", "fmt", "sep", "loader", "crlf", "near_miss_tag", "custom_tag", "param_resolved"],
+    "required_classes": ["two_custom_types", "perm", "junk1", "junk2", "fmt", "sep", "loader", "crlf", "near_miss_tag", "custom_tag", "param_resolved"],
     "bounds": {"quick": "all 5040 + 2520 line orders; junk <= 2 insertions into 2 base files; 10 formats x every field; 3 separators x 3 endings x 6 loaders", "thorough": "same + junk pairs on every rotation of the base files + 3 insertions of the near-miss tags"},
 }
 
@@ -48,7 +48,29 @@ class CustomPrior(_Custom):
         return None
 
 
-CUSTOM = {"CUSTOM_PRIOR": (1, 2, 2)}
+class CustomPair(_Custom):
+    """second registered custom edge: CUSTOM_PAIR id1 id2 e0 I11"""
+
+    def calc_error(self):
+        return np.array([float(np.linalg.norm(self.vertices[0].pose.position - self.vertices[1].pose.position)) - float(self.estimate[0])])
+
+    @classmethod
+    def from_g2o(cls, line, g2o_params_or_none=None):
+        if line.startswith("CUSTOM_PAIR "):
+            t = line.split()
+            return cls([int(t[1]), int(t[2])], np.array([[float(t[4])]]), np.array([float(t[3])]))
+        return None
+
+
+CUSTOM = {"CUSTOM_PRIOR": (1, 2, 2), "CUSTOM_PAIR": (2, 1, 1)}
+CUSTOM_LINES = [
+    ["VERTEX_SE2", "0", "0.1", "-0.2", "0.3"],
+    ["VERTEX_XY", "2", "4.0", "-5.5"],
+    ["CUSTOM_PRIOR", "0", "0.5", "-0.5", "1.0", "0.5", "2.0"],
+    ["CUSTOM_PAIR", "0", "2", "1.25", "3.0"],
+    ["CUSTOM_PRIOR", "2", "0.25", "0.75", "2.0", "0.0", "1.0"],
+    ["EDGE_SE2_XY", "0", "2", "0.7", "-0.8", "7.25", "8.25", "9.25"],
+]
 
 Q_A = ["0.18257418583505536", "-0.3651483716701107", "0.5477225575051661", "0.7302967433402214"]
 Q_B = ["-0.5", "0.5", "-0.5", "-0.5"]
@@ -67,13 +89,13 @@ def base_files():
     ]
     info21 = [str(10.0 + 0.5 * k) for k in range(21)]
     b2 = [
-        ["PARAMS_SE3OFFSET", "3", "0.1", "0.2", "0.3"] + Q_A,
+        ["PARAMS_SE3OFFSET", "3", "0.1", "0.2", "0.3"] + Q_B,  # referenced by the landmark edge; qw < 0
         ["VERTEX_SE3:QUAT", "10", "1.0", "-2.0", "3.0"] + Q_A,
         ["VERTEX_SE3:QUAT", "-4", "0.5", "0.25", "-0.125"] + Q_B,
         ["VERTEX_TRACKXYZ", "7", "9.0", "8.0", "-7.0"],
         ["EDGE_SE3:QUAT", "10", "-4", "0.3", "0.2", "0.1"] + Q_UNNORM + info21,
         ["EDGE_SE3_TRACKXYZ", "-4", "7", "3", "1.0", "2.0", "3.0", "1.5", "0.25", "0.125", "2.5", "0.375", "3.5"],
-        ["PARAMS_SE3OFFSET", "5", "-0.3", "0.0", "0.6"] + Q_B,
+        ["PARAMS_SE3OFFSET", "5", "-0.3", "0.0", "0.6"] + Q_A,
     ]
     return {"b1": b1, "b2": b2}
 
@@ -120,6 +142,7 @@ def chunks(tier, seed):
         out.append(("fmt", b, 0))
         out.append(("sep", b, 0))
     out.append(("empty", "b1", 0))
+    out.append(("custom2", "b1", 0))
     return out
 
 
@@ -169,6 +192,11 @@ def run_chunk(chunk, tier, seed):
                     for eol, fin in (("\n", True), ("\r\n", True), ("\n", False)):
                         for loader in range(6):
                             _do(acc, {"t": "sep", "base": b, "sep": sep, "trail": trail, "eol": eol, "final": fin, "loader": loader}, ctx)
+        elif typ == "custom2":
+            # several registered custom types: every line order x both registration orders x registering only one of them
+            for order in itertools.permutations(range(len(CUSTOM_LINES))):
+                for reg in ("AB", "BA"):
+                    _do(acc, {"t": "custom2", "base": b, "order": list(order), "reg": reg}, ctx)
         elif typ == "empty":
             for j in range(len(JUNK)):
                 for j2 in range(len(JUNK)):
@@ -235,6 +263,9 @@ def text_of(case):
             classes.append("crlf")
     elif t == "empty":
         lines = [JUNK[j][1] for j in case["ins"]]
+    elif t == "custom2":
+        lines = [list(CUSTOM_LINES[k]) for k in case["order"]]
+        classes.append("two_custom_types")
     return render(lines, **kw), classes
 
 
@@ -282,14 +313,17 @@ def _eval(case, ctx):
     loader = case.get("loader", 0)
     try:
         try:
-            g = _load(path, loader, [CustomPrior] if has_custom else None)
+            ctypes = None
+            if has_custom:
+                ctypes = [CustomPrior, CustomPair] if case.get("reg", "AB") == "AB" else [CustomPair, CustomPrior]
+            g = _load(path, loader, ctypes)
         except Exception as ex:
             return ["loading a well-formed file raised %s: %s\n%s" % (type(ex).__name__, ex, text)], {"classes": classes, "nobj": "raise", "nwarn": "-"}
     finally:
         lg.removeHandler(cap)
         lg.propagate = old_prop
     got = g2oio.describe_graph(g)
-    g2oio.compare(got, ref, msgs, custom_map={"CUSTOM_PRIOR": "CustomPrior"})
+    g2oio.compare(got, ref, msgs, custom_map={"CUSTOM_PRIOR": "CustomPrior", "CUSTOM_PAIR": "CustomPair"})
     nw = len(cap.records)
     lo, hi = len(ref["unsupported"]), len(ref["unsupported"]) + ref["blank"]
     if not lo <= nw <= hi:
